@@ -624,6 +624,14 @@ func (t *tr) ex(e ast.Expr, want kind, k func(string) string) string {
 				return "(if " + a + " then " + done("true", kBool) + " else " + t.ex(x.Y, kBool, func(b string) string { return done(b, kBool) }) + ")"
 			})
 		case token.EQL, token.NEQ:
+			if coll, empty, ok := t.lenTest(x); ok {
+				return t.ex(coll, kBad, func(a string) string {
+					if empty {
+						return done("("+a+".isEmpty)", kBool)
+					}
+					return done("(!("+a+".isEmpty))", kBool)
+				})
+			}
 			kx, ky := t.kindE(x.X), t.kindE(x.Y)
 			if isNil(x.X) {
 				kx = ky
@@ -662,10 +670,18 @@ func (t *tr) ex(e ast.Expr, want kind, k func(string) string) string {
 					if x.Op == token.EQL {
 						return done("("+a+" == "+b+")", kBool)
 					}
-					return done("("+a+" != "+b+")", kBool)
+					return done("(!("+a+" == "+b+"))", kBool) // canonical: a negated equality
 				})
 			})
 		case token.ADD, token.SUB, token.LSS, token.GTR, token.LEQ, token.GEQ:
+			if coll, empty, ok := t.lenTest(x); ok {
+				return t.ex(coll, kBad, func(a string) string {
+					if empty {
+						return done("("+a+".isEmpty)", kBool)
+					}
+					return done("(!("+a+".isEmpty))", kBool)
+				})
+			}
 			kx := t.kindE(x.X)
 			if kx != kInt && !(kx == kStr && x.Op == token.ADD) {
 				t.fail(e, "operator %s on this type is outside the fragment", x.Op)
@@ -886,6 +902,70 @@ func (t *tr) callsFuncValue(n ast.Node) bool {
 		return true
 	})
 	return found
+}
+
+// len(c) compared with 0 or 1 where c is a map or a slice: every spelling of "c is empty" / "c is not empty" is one term
+func (t *tr) lenTest(x *ast.BinaryExpr) (coll ast.Expr, empty bool, ok bool) {
+	lenOf := func(e ast.Expr) ast.Expr {
+		if c, isCall := e.(*ast.CallExpr); isCall && callName(c) == "len" && len(c.Args) == 1 {
+			switch t.kindE(c.Args[0]) {
+			case kMap, kList, kStrList, kDocList, kCtxList:
+				return c.Args[0]
+			}
+		}
+		return nil
+	}
+	lit := func(e ast.Expr) int {
+		if b, isLit := e.(*ast.BasicLit); isLit && b.Kind == token.INT {
+			if b.Value == "0" {
+				return 0
+			}
+			if b.Value == "1" {
+				return 1
+			}
+		}
+		return -1
+	}
+	op := x.Op
+	c, n := lenOf(x.X), lit(x.Y)
+	if c == nil {
+		// 0 < len(x): mirror
+		c, n = lenOf(x.Y), lit(x.X)
+		op = map[token.Token]token.Token{token.LSS: token.GTR, token.GTR: token.LSS, token.LEQ: token.GEQ, token.GEQ: token.LEQ, token.EQL: token.EQL, token.NEQ: token.NEQ}[op]
+	}
+	if c == nil || n < 0 {
+		return nil, false, false
+	}
+	switch {
+	case n == 0 && (op == token.EQL || op == token.LEQ), n == 1 && op == token.LSS:
+		return c, true, true
+	case n == 0 && (op == token.NEQ || op == token.GTR), n == 1 && op == token.GEQ:
+		return c, false, true
+	}
+	return nil, false, false
+}
+
+// a condition of the form (!c): its core and true; otherwise the condition and false
+func stripNot(cond string) (string, bool) {
+	if strings.HasPrefix(cond, "(!") && strings.HasSuffix(cond, ")") {
+		inner := cond[2 : len(cond)-1]
+		depth := 0
+		for _, ch := range inner {
+			if ch == '(' {
+				depth++
+			}
+			if ch == ')' {
+				depth--
+				if depth < 0 {
+					return cond, false
+				}
+			}
+		}
+		if depth == 0 {
+			return inner, true
+		}
+	}
+	return cond, false
 }
 
 // does e contain a call of a listed (hence monadic) function?  Library primitives are total pure terms.
@@ -1477,6 +1557,38 @@ func (t *tr) stmts(ss []ast.Stmt, c ctx, k func() string) string {
 		}
 		t.fail(s, "%s outside a loop of the fragment", s.Tok)
 	case *ast.ExprStmt:
+		if call, ok := s.X.(*ast.CallExpr); ok && callName(call) == "maps.Copy" && len(call.Args) == 2 {
+			// for k, v := range src { dst[k] = v }
+			if id, ok := call.Args[0].(*ast.Ident); ok && t.kindE(call.Args[0]) == kMap && t.kindE(call.Args[1]) == kMap {
+				names, _ := t.assignTargets([]ast.Expr{id}, false)
+				t.checkMutation(id, s)
+				return t.ex(call.Args[1], kMap, func(src string) string {
+					stv := names[0]
+					if t.inHO && false {
+						stv = "(" + names[0] + ", st__)"
+					}
+					kv, vv := t.fresh("k"), t.fresh("v")
+					r := t.fresh("r")
+					rs := make([]string, len(t.results))
+					for i := range rs {
+						rs[i] = r + "_" + fmt.Sprint(i)
+					}
+					if t.inHO {
+						rr := t.fresh("rr")
+						return "(match Go.forRange (ρ := (" + t.resultType() + " × σ)) " + src + " " + stv + " (fun (" + kv + ", " + vv + ") " + stv + " =>\n" +
+							"(let " + names[0] + " := fset " + names[0] + " " + kv + " " + vv + "\n(.ok (Go.Loop.next " + stv + ")))) with\n" +
+							" | .error e__ => .error e__\n" +
+							" | .ok (.inr " + rr + ") => " + c.retRaw(rr) + "\n" +
+							" | .ok (.inl " + stv + ") =>\n" + rest() + ")"
+					}
+					return "(match Go.forRange (ρ := " + t.resultType() + ") " + src + " " + stv + " (fun (" + kv + ", " + vv + ") " + stv + " =>\n" +
+						"(let " + names[0] + " := fset " + names[0] + " " + kv + " " + vv + "\n(.ok (Go.Loop.next " + stv + ")))) with\n" +
+						" | .error e__ => .error e__\n" +
+						" | .ok (.inr " + tuple(rs) + ") => " + c.ret(rs) + "\n" +
+						" | .ok (.inl " + stv + ") =>\n" + rest() + ")"
+				})
+			}
+		}
 		if call, ok := s.X.(*ast.CallExpr); ok && callName(call) == "delete" {
 			names, _ := t.assignTargets(call.Args[:1], false)
 			t.checkMutation(call.Args[0].(*ast.Ident), s)
@@ -1521,6 +1633,9 @@ func (t *tr) stmts(ss []ast.Stmt, c ctx, k func() string) string {
 					elseB = t.stmts(e.List, c, rest)
 				case *ast.IfStmt:
 					elseB = t.stmts([]ast.Stmt{e}, c, rest)
+				}
+				if core, neg := stripNot(cond); neg {
+					return "(if " + core + " then\n" + elseB + "\nelse\n" + thenB + ")" // canonical: positive condition
 				}
 				return "(if " + cond + " then\n" + thenB + "\nelse\n" + elseB + ")"
 			})
@@ -1881,18 +1996,23 @@ func (t *tr) exprSwitch(s *ast.SwitchStmt, c ctx, rest func() string) string {
 			return rest()
 		}
 		cc := nondef[i]
+		// the case's values as a left-nested disjunction, like `k == a || k == b || k == c` written out
 		var cond func(j int, k func(string) string) string
+		var condAcc func(j int, acc string, k func(string) string) string
+		one := func(j int, k2 func(string) string) string {
+			if tag == "" {
+				return t.ex(cc.List[j], kBool, k2)
+			}
+			return t.ex(cc.List[j], tk, func(a string) string { return k2("(" + tag + " == " + a + ")") })
+		}
+		condAcc = func(j int, acc string, k func(string) string) string {
+			if j == len(cc.List) {
+				return k(acc)
+			}
+			return one(j, func(a string) string { return condAcc(j+1, "("+acc+" || "+a+")", k) })
+		}
 		cond = func(j int, k func(string) string) string {
-			one := func(k2 func(string) string) string {
-				if tag == "" {
-					return t.ex(cc.List[j], kBool, k2)
-				}
-				return t.ex(cc.List[j], tk, func(a string) string { return k2("(" + tag + " == " + a + ")") })
-			}
-			if j == len(cc.List)-1 {
-				return one(k)
-			}
-			return one(func(a string) string { return cond(j+1, func(b string) string { return k("(" + a + " || " + b + ")") }) })
+			return one(0, func(a string) string { return condAcc(1, a, k) })
 		}
 		return cond(0, func(cnd string) string {
 			return "(if " + cnd + " then\n" + t.stmts(cc.Body, c2, rest) + "\nelse\n" + build(i+1, tag, tk) + ")"
@@ -1906,6 +2026,9 @@ func (t *tr) exprSwitch(s *ast.SwitchStmt, c ctx, rest func() string) string {
 		t.fail(s, "switch on this type")
 	}
 	return t.ex(s.Tag, tk, func(a string) string {
+		if _, isIdent := s.Tag.(*ast.Ident); isIdent {
+			return build(0, a, tk) // `switch k { case a, b: }` and `if k == a || k == b` are one term
+		}
 		tg := t.fresh("tag")
 		return "(let " + tg + " := " + a + "\n" + build(0, tg, tk) + ")"
 	})
@@ -2226,7 +2349,7 @@ func (t *tr) checkMutation(id *ast.Ident, at ast.Stmt) {
 					okUse = okUse || px.X == uid
 				case *ast.CallExpr:
 					cn := callName(px)
-					okUse = okUse || ((cn == "len" || cn == "delete" || cn == "append") && len(px.Args) > 0 && px.Args[0] == uid)
+					okUse = okUse || ((cn == "len" || cn == "delete" || cn == "append" || cn == "maps.Copy") && len(px.Args) > 0 && px.Args[0] == uid)
 				case *ast.RangeStmt:
 					okUse = okUse || px.X == uid
 				case *ast.AssignStmt:
@@ -2265,7 +2388,7 @@ func (t *tr) checkMutation(id *ast.Ident, at ast.Stmt) {
 				okUse = okUse || px.X == uid
 			case *ast.CallExpr:
 				cn := callName(px)
-				okUse = okUse || ((cn == "len" || cn == "delete") && len(px.Args) > 0 && px.Args[0] == uid)
+				okUse = okUse || ((cn == "len" || cn == "delete" || cn == "maps.Copy") && len(px.Args) > 0 && px.Args[0] == uid)
 			case *ast.RangeStmt:
 				okUse = okUse || px.X == uid
 			}
